@@ -313,6 +313,10 @@ def run_task(task):
             res["discharged"] += 1
         elif r == "unknown":
             res["inconclusive"] += 1
+        elif lp.honest_status == "kInfeasible" and smt.feasible(lp, timeout_ms=_qt(60000))[0] == "sat":
+            # the program handed to HiGHS is feasible (z3) although HiGHS said infeasible: the solver's fault, outside the claim
+            res["inconclusive"] += 1
+            res["extra"]["highs_declared_feasible_program_infeasible"] = res["extra"].get("highs_declared_feasible_program_infeasible", 0) + 1
         else:
             res["extra"]["disagreements_checked"] = res["extra"].get("disagreements_checked", 0) + 1
             res["violations"].append({"signature": f"{cls}:infeasible-although-solution-exists" + _cap_diag(task, m, lp, sp, s.model()),
